@@ -50,13 +50,28 @@ def agp_fields(name, p, i, r):
     }
 
 
-def agp_cols(name, p, i, r):
-    """the AGP columns of row r, the i-th row (0-based) of object `name`, p bases of the object before it"""
+def agp_cols_parts(name, p, i, r):
+    """(columns of a gap row, columns of a sequence row)"""
     f = agp_fields(name, p, i, r)
     head = seq(f["object"], int_to_str(f["object_beg"]), int_to_str(f["object_end"]), int_to_str(f["part_number"]))
     gap = seq(sv("U"), int_to_str(f["gap_length"]), f["gap_type"], sv("yes"), sv("proximity_ligation"))
     frag = z3.Concat(seq(sv("W"), f["component_id"], int_to_str(f["component_beg"]), int_to_str(f["component_end"]), f["orientation"]), f["tags"])
-    return z3.Concat(head, z3.If(r.is_gap, gap, frag))
+    return z3.Concat(head, gap), z3.Concat(head, frag)
+
+
+def agp_col_terms(name, p, i, r):
+    """the individual column terms: (head 4, gap columns 5, sequence columns 5, tags)"""
+    f = agp_fields(name, p, i, r)
+    head = [f["object"], int_to_str(f["object_beg"]), int_to_str(f["object_end"]), int_to_str(f["part_number"])]
+    gap = [sv("U"), int_to_str(f["gap_length"]), f["gap_type"], sv("yes"), sv("proximity_ligation")]
+    frag = [sv("W"), f["component_id"], int_to_str(f["component_beg"]), int_to_str(f["component_end"]), f["orientation"]]
+    return head, gap, frag, f["tags"]
+
+
+def agp_cols(name, p, i, r):
+    """the AGP columns of row r, the i-th row (0-based) of object `name`, p bases of the object before it"""
+    g, f = agp_cols_parts(name, p, i, r)
+    return z3.If(r.is_gap, g, f)
 
 
 @contract(f"{M}.format_agp", kind="function", properties=("C06", "C05"))
@@ -109,3 +124,75 @@ class _:
 def _appends(v, o):
     a, b = o.file.g_out, v.file.g_out
     return [("appends-only", z3.And(b.same(a), b.len >= a.len, forall(lambda k: z3.Implies(z3.And(0 <= k, k < a.len), b[k] == a[k]))))]
+
+
+# --- TPF ---------------------------------------------------------------------------------------------
+
+from pyvc.values import TConst, Val  # noqa: E402
+
+UPPER_DASH = "upper_dash"  # str.translate(uppercase_and_underscore_to_dash()): a-z -> A-Z, '_' -> '-'
+LOWER_UNDERSCORE = "lower_underscore"  # str.translate(lowercase_and_dash_to_underscore())
+
+
+@contract(f"{M}.uppercase_and_underscore_to_dash", kind="function", status="TRUSTED")
+class _:
+    params = {}
+    result = None
+    fresh_result = staticmethod(lambda s, o: Val(TConst(), ("strtable", UPPER_DASH)))
+
+
+def tpf_gap_type(t):
+    """C05: 'the TYPE-2/TYPE-3/upper-case-dash gap-type mapping'"""
+    return z3.If(t == sv("scaffold"), sv("TYPE-2"), z3.If(t == sv("contig"), sv("TYPE-3"), smt.str_fn(UPPER_DASH)(t)))
+
+
+def tpf_strand(r):
+    return z3.If(r.strand == 0, sv("UNKNOWN"), z3.If(r.strand == 1, sv("PLUS"), sv("MINUS")))
+
+
+def tpf_cols_parts(name, r):
+    gap = seq(sv("GAP"), tpf_gap_type(r.gap_type), int_to_str(r.length))
+    frag = seq(sv("?"), z3.Concat(r.name, sv(":"), int_to_str(r.start), sv("-"), int_to_str(r.end)), name, tpf_strand(r))
+    return gap, frag
+
+
+def tpf_cols(name, r):
+    gap, frag = tpf_cols_parts(name, r)
+    return z3.If(r.is_gap, gap, frag)
+
+
+@contract(f"{M}.format_tpf", kind="function", properties=("C05",))
+class _:
+    params = {"asm": TRef("Assembly"), "file": TRef("TextOut")}
+    result = NONE
+
+    @staticmethod
+    def requires(o):
+        return z3.And(o.file.g_out.z != o.asm.header.z)
+
+    @staticmethod
+    def modifies(o):
+        return [("list", STR, o.file.g_out)]
+
+    @staticmethod
+    def ensures(o, n, res):
+        a, b = o.file.g_out, n.file.g_out
+        return [("appends-only", z3.And(b.same(a), b.len >= a.len, forall(lambda k: z3.Implies(z3.And(0 <= k, k < a.len), b[k] == a[k]))))]
+
+    loops = {
+        0: LoopSpec(kind="for", iter_src="asm.header", inv=lambda v, e, o: _appends(v, o),
+                    iter_post=lambda v, b, e: [("header-line", z3.And(v.file.g_out.len == b.file.g_out.len + 1,
+                                                                    v.file.g_out[b.file.g_out.len] == z3.Concat(sv("## "), b.line, sv("\n"))))]),
+        1: LoopSpec(kind="for", iter_src="asm.scaffolds", inv=lambda v, e, o: _appends(v, o)),
+        2: LoopSpec(
+            kind="for",
+            iter_src="scffld.rows",
+            inv=lambda v, e, o: _appends(v, o) + [("name", v.scffld_name == v.scffld.name)],
+            # one iteration writes exactly the TPF line of this row and a newline
+            iter_post=lambda v, b, e: (lambda out1, out0: [
+                ("two-writes", out1.len == out0.len + 2),
+                ("line", out1[out0.len] == smt.strjoin(TAB, tpf_cols(b.scffld.name, b.row))),
+                ("newline", out1[out0.len + 1] == sv("\n")),
+            ])(v.file.g_out, b.file.g_out),
+        ),
+    }
